@@ -76,12 +76,19 @@ def checkFm (strsHex qHex pHex sHex n el ml bwt occ alpha ss sampled samp loc ab
     | _, _ => some (0, 0)
   if modPre != implPre.map some then "V model-locatePrefix-differs-from-code" else
   if modPre != specPre then "V model-locatePrefix-differs-from-spec" else
+  let extParts := ext.splitOn ";"
+  let ext := extParts.headD "-"
+  let tabPart := (extParts.drop 1).headD "-"
   let exts := if ext == "-" then [] else ext.splitOn ","
   let implExt : List (Option (List Sym)) := exts.map fun e =>
     if e == "N" then none else some (symsOf (unhex (e.drop 1).toString))
   let modExt := (List.range (S.length + 2)).map d.extract
   if modExt != implExt.map some then "V model-extract-differs-from-code" else
   if modExt != ((List.range (S.length + 2)).map fun i => some ((Spec.extract S i).map symsOf)) then "V model-extract-differs-from-spec" else
+  -- the table scan: the model iterator on the exported index, the code's scan, the specification
+  let implTab : List (List Sym) := (if tabPart == "-" || tabPart == "" then [] else tabPart.splitOn ",").map fun e => symsOf (unhex (e.drop 1).toString)
+  if d.extractTable != some (S.map symsOf) then "V model-extractTable-differs-from-spec" else
+  if extParts.length > 1 && implTab != S.map symsOf then "V model-extractTable-differs-from-code" else
   if step == 0 then "V ok" else
   let B := commaStrs sHex
   let implSub : List (List Nat) := (splitOnComma sub).map fun e =>
